@@ -113,7 +113,7 @@ func slex(src string) ([]stok, error) {
 			for i < len(src) && src[i] != '\n' {
 				i++
 			}
-		case unicode.IsLetter(rune(c)) || c == '_':
+		case unicode.IsLetter(rune(c)) || c == '_' || c == '$':
 			j := i
 			for j < len(src) && (unicode.IsLetter(rune(src[j])) || unicode.IsDigit(rune(src[j])) || src[j] == '_' || src[j] == '$') {
 				j++
@@ -537,6 +537,7 @@ type Clause struct {
 	Props []string // clause-level property tags (default: item's)
 	Text  string
 	Expr  *SExpr
+	Lhs   *SExpr // for set clauses
 	Ord   int // ordinal among clauses of the same kind (and loop)
 	Line  int
 }
@@ -600,7 +601,11 @@ type ContractSet struct {
 	Immutable []string
 }
 
+// ghost variables ("$name") and ghost fields ("Type.$field") with their type names
+var ghostDecls = map[string]string{}
+
 var clauseKeywords = map[string]bool{
+	"at": true, "freshresult": true, "set": true,
 	"requires": true, "ensures": true, "modifies": true, "loop": true, "decreases": true,
 	"pure": true, "inline": true, "safe": true, "assume": true, "returns": true, "nopanic": true,
 	"purefield": true, "cases": true, "replay": true, "panics_if": true, "opaque": true, "reads": true,
@@ -730,7 +735,7 @@ func LoadContractFile(path string, trusted bool) (*ContractSet, error) {
 				immutableComps[n] = true
 				cs.Immutable = append(cs.Immutable, n)
 			}
-		case "ghost":
+		case "ghost": // ghost $name type   |   ghost Type.$field type
 			f := strings.Fields(rest)
 			if len(f) != 2 {
 				return nil, fmt.Errorf("%s:%d: ghost NAME TYPE", path, it.head.n)
@@ -811,7 +816,24 @@ func LoadContractFile(path string, trusted bool) (*ContractSet, error) {
 					}
 				case "purefield":
 					fs.PureFlds = append(fs.PureFlds, strings.Fields(c.Text)...)
-				case "modifies", "cases", "havoc", "loopmodifies", "frame", "event", "replay":
+				case "set":
+					// set LHS := RHS   (exact ghost/field update performed by a trusted contract)
+					parts := strings.SplitN(c.Text, ":=", 2)
+					if len(parts) != 2 {
+						return fmt.Errorf("%s:%d: set LHS := RHS", path, c.Line)
+					}
+					l, err := ParseSExpr(strings.TrimSpace(parts[0]))
+					if err != nil {
+						return fmt.Errorf("%s:%d: %v", path, c.Line, err)
+					}
+					rr, err := ParseSExpr(strings.TrimSpace(parts[1]))
+					if err != nil {
+						return fmt.Errorf("%s:%d: %v", path, c.Line, err)
+					}
+					c.Expr = rr
+					c.Lhs = l
+					fs.Clauses = append(fs.Clauses, c)
+				case "modifies", "cases", "havoc", "loopmodifies", "frame", "event", "replay", "at":
 					if c.Props == nil {
 						c.Props = fs.Props
 					}
